@@ -9,3 +9,5 @@ for p in "$@"; do
   echo "$(basename $d) $p => $out"
 done
 git -C /repo checkout -- .
+# restore evidence of the unchanged tree for the properties that were run
+for p in "$@"; do timeout 1500 ./check $p --tier quick >/dev/null 2>&1; done
